@@ -179,3 +179,29 @@ def run(ctx, res):
         res.count('tiling_grammars'); res.count('tiling_inputs', rec['inputs']); res.count('tiling_trees', rec['trees'])
         for f in rec['fails']:
             res.violation('a tree encoded by the forest is not a tiling of the input (tokens overlap, or a gap is not ignored text)', dict(f, grammar=rec['grammar']))
+    # ---- completeness under dynamic_complete with regexp terminals: the forest against the lattice-level derivation oracle (C04's third stream, forest mode)
+    from props.c04 import _lattice_case
+    import functools
+    rng4 = _r.Random(ctx['seed'] * 1000003 + 2024)
+    seeds4 = [rng4.randrange(1 << 30) for _ in range(tier_scale(ctx['tier'], 500, 7000) * (3 if ctx['deepen'] else 1))]
+    for seed, (st, rec) in zip(seeds4, pmap(functools.partial(_lattice_case, mode='forest'), seeds4, chunksize=4)):
+        if st != 'ok':
+            if st == 'exc':
+                if not exc_in_lark(rec):
+                    raise InfraError(rec)
+                res.violation('parsing with dynamic_complete raised an unexpected exception', {'seed': seed, 'detail': rec})
+            else:
+                res.inconclusive[st] = res.inconclusive.get(st, 0) + 1
+            continue
+        if rec.get('nobuild') or rec.get('cyclic'):
+            continue
+        for run_ in rec['runs']:
+            if 'skipped' in run_:
+                continue
+            res.case(['lattice_forest', rec['grammar'], run_['text']], nontrivial=run_['nderivs'] > 1, sample=None)
+            res.count('lattice_forest_inputs'); res.count('lattice_forest_ambiguous', 1 if run_['nderivs'] > 1 else 0)
+            if 'missing' in run_:
+                res.violation('dynamic_complete: the trees the forest encodes are not exactly the derivations of the character lattice (ambiguity inside terminals included)',
+                              {'grammar': rec['grammar'], 'text': run_['text'], 'derivations': run_['nderivs'], 'missing': run_['missing'], 'not_a_derivation': run_['extra']})
+            elif run_['nderivs'] == 1 and run_.get('is_ambiguous') and '%ignore' not in rec['grammar']:
+                res.violation('single derivation but root.is_ambiguous is True', {'grammar': rec['grammar'], 'text': run_['text']})
